@@ -356,6 +356,47 @@ def _run_model(case, res):
                     res.violate(f"model:restricted-implicants-{direction}", model=case["model"], var=nm, assign=str(assign))
                     return
         res.label("model-restricted")
+    # restriction to trap spaces obtained from the solver (verified symbolically to be trap spaces first)
+    if n <= 60:
+        from biobalm.trappist_core import trappist
+
+        for T in call(trappist, pn, problem="min", solution_limit=2, limit=None) + call(trappist, pn, problem="max", solution_limit=2, limit=None):
+            val = {k: bool(v) for k, v in T.items()}
+            is_trap = True
+            for nm, v in T.items():
+                uf = bn.get_update_function(nm)
+                if uf is None:
+                    continue
+                fr = ctx.mk_update_function(uf).r_restrict(val)
+                if not (fr.is_true() if v else fr.is_false()):
+                    is_trap = False
+            if not is_trap:
+                res.violate("model:solver-result-is-not-a-trap-space", model=case["model"], space=str(dict(sorted(T.items())))[:200])
+                return
+            rpn = call(restrict_petrinet_to_subspace, pn, T, limit=None)
+            rtr = {nm: {"up": [], "down": []} for nm in names}
+            for node, data in rpn.nodes(data=True):
+                if data.get("kind") == "transition":
+                    rtr[data["change"]][data["direction"]].append(sorted(rpn.predecessors(node)))
+            for nm in names:
+                if nm in T:
+                    if rtr[nm]["up"] or rtr[nm]["down"]:
+                        res.violate("model:trap-restrict-transition-of-fixed", model=case["model"], var=nm)
+                        return
+                    continue
+                uf = bn.get_update_function(nm)
+                if uf is None:
+                    continue
+                f = ctx.mk_update_function(uf).r_restrict(val)
+                x = bvs.mk_literal(nm, True)
+                for direction, want in (("up", f.l_and(x.l_not())), ("down", f.l_not().l_and(x))):
+                    got = bvs.mk_false()
+                    for pre in rtr[nm][direction]:
+                        got = got.l_or(cube(pre))
+                    if got != want:
+                        res.violate(f"model:trap-restricted-implicants-{direction}", model=case["model"], var=nm)
+                        return
+            res.count("model_trap_spaces_checked")
     res.nontrivial = multi
     res.label("model", f"model-vars={min(n // 20 * 20, 200)}+")
 
